@@ -44,9 +44,21 @@ def p4Checker (tags : List String) : Checker :=
       else if tags.contains f.prop then some (.oracle s!"[{f.prop}] {f.msg}")
       else none)⟩
 
+/-- C05: an association that ends while the P4Runtime server refuses every write — what the agent holds itself must be returned -/
+def tdFault (l : String) : Verdict :=
+  match toks l with
+  | ["tdfault", how, n, heldBefore, teidBefore, "=>", alive, _conns, held, teid, gauge] =>
+    if n = "0" ∨ heldBefore = "0" ∨ teidBefore = "0" then .bad "teardown-fault scenario established nothing (vacuous)"
+    else if alive != "1" then .oracle s!"[C05] the agent died when its association ended ({how}) while the P4Runtime server refused every write"
+    else if held != "0" ∨ teid != "0" ∨ gauge != "0" then
+      .oracle s!"[C05] association ended by {how} while the datapath refused the deletes: {held} UE addresses, {teid} TEIDs, {gauge} gauge units of its {n} sessions are never returned (the association and its store are gone)"
+    else .ok
+  | _ => .bad "tdfault line"
+
 /-- traces that contain runs on both datapaths: a `cfg` line with a `p4` object switches to the UP4 acceptor -/
 def dualChecker (tags : List String) : Checker :=
   ⟨Bool × Sys.St × P4.St4, (false, {}, {}), fun (isP4, ss, ps) n l =>
+    if l.startsWith "tdfault" then ((isP4, ss, ps), [tdFault l]) else
     let isP4 := if (l.splitOn "\"k\":\"cfg\"").length > 1 then (l.splitOn "\"p4\":{").length > 1 else isP4
     if isP4 then
       let (ps', vs) := (p4Checker tags).step ps n l
